@@ -20,7 +20,6 @@ CONSTANTS
  MaxChain = 0
  InitSt <- IActive
  Policy = "free"
-INVARIANTS Safety Robust
-PROPERTIES MCDeleteOnlyOwn MCRefusedNoEffect
+INVARIANTS EnoughIsEnough
 VIEW View
 CHECK_DEADLOCK FALSE
